@@ -802,6 +802,40 @@ struct Generated {
     shape: String,
 }
 
+/// files already present in an existing output directory right beside the destinations: stale
+/// outputs (legitimately overwritten) and foreign files sharing a destination's stem
+/// (`<stem>.tmp`, `.bak`, `<name>~`, `.txt`), which must survive the run untouched
+fn preseed_output_directory(rng: &mut Rng, tree: &mut Vec<(String, Ent)>, lua_keys: &[String], input_norm: &str, out: &str) {
+    for key in lua_keys {
+        let rel = match is_under(key, input_norm) {
+            Some(r) if !r.is_empty() => r,
+            Some(_) => key.rsplit('/').next().unwrap_or("").to_owned(), // single-file input
+            None => continue,
+        };
+        if !rng.chance(1, 3) {
+            continue;
+        }
+        let (dir, name) = match rel.rsplit_once('/') {
+            Some((d, n)) => (format!("{}/{}", out, d), n.to_owned()),
+            None => (out.to_owned(), rel.clone()),
+        };
+        let stem = name.rsplit_once('.').map(|x| x.0.to_owned()).unwrap_or_else(|| name.clone());
+        if stem.is_empty() {
+            continue;
+        }
+        let path = match rng.below(6) {
+            0 | 1 => format!("{}/{}.tmp", dir, stem),
+            2 => format!("{}/{}.bak", dir, stem),
+            3 => format!("{}/{}~", dir, name),
+            4 => format!("{}/{}.tmp", dir, name),
+            _ => format!("{}/{}", dir, name), // a stale output
+        };
+        if !tree.iter().any(|(p, _)| *p == path) {
+            tree.push((path, Ent::File(b"return 'pre-existing'".to_vec())));
+        }
+    }
+}
+
 fn generate(rng: &mut Rng, fs: bool, allow_finding_classes: bool) -> Generated {
     let root = if rng.chance(1, 4) { "proj/src" } else { "src" };
     let mut tree: Vec<(String, Ent)> = Vec::new();
@@ -877,6 +911,40 @@ fn generate(rng: &mut Rng, fs: bool, allow_finding_classes: bool) -> Generated {
             lua_keys.push(user);
         }
     }
+    // siblings that share a Lua file's stem (`a.tmp`, `a.bak`, `a.lua~`, `a.txt`, `a.luau` beside
+    // `a.lua`): scratch names an implementation might be tempted to use next to a destination.
+    // Non-Lua ones must never change; a `.lua`/`.luau` twin is a work item of its own.
+    if rng.chance(1, 2) {
+        for key in lua_keys.clone() {
+            if !rng.chance(1, 2) {
+                continue;
+            }
+            let (dir, name) = key.rsplit_once('/').unwrap_or(("", key.as_str()));
+            let stem = name.rsplit_once('.').map(|x| x.0).unwrap_or(name);
+            if stem.is_empty() {
+                continue;
+            }
+            let sibling = match rng.below(7) {
+                0 | 1 => format!("{}/{}.tmp", dir, stem),
+                2 => format!("{}/{}.bak", dir, stem),
+                3 => format!("{}/{}~", dir, name),
+                4 => format!("{}/{}.txt", dir, stem),
+                5 => format!("{}/{}.tmp", dir, name),
+                _ => format!("{}/{}.{}", dir, stem, if name.ends_with(".lua") { "luau" } else { "lua" }),
+            };
+            if tree.iter().any(|(p, _)| *p == sibling) || dirs.contains(&sibling) {
+                continue;
+            }
+            if has_lua_extension(&sibling) {
+                tree.push((sibling.clone(), Ent::File(format!("return 'twin of {}'\n", stem).into_bytes())));
+                faults.insert(sibling.clone(), Fault::Healthy);
+                lua_keys.push(sibling);
+            } else {
+                tree.push((sibling.clone(), Ent::File(format!("scratch sibling of {}", name).into_bytes())));
+                faults.insert(sibling, Fault::Syntax);
+            }
+        }
+    }
     // non-lua files and empty directories
     for _ in 0..rng.below(3) {
         let key = format!("{}/{}", rng.pick(&dirs), rng.pick(&OTHER_NAMES));
@@ -926,6 +994,7 @@ fn generate(rng: &mut Rng, fs: bool, allow_finding_classes: bool) -> Generated {
             shape.push_str(if name.contains('.') { " out=existing-dir.dotted" } else { " out=existing-dir" });
             tree.push((format!("{}/keep.txt", name), Ent::File(b"keep".to_vec())));
             tree.push((format!("{}/sub/old.lua", name), Ent::File(b"return 'old'".to_vec())));
+            preseed_output_directory(rng, &mut tree, &lua_keys, &input_norm, name);
             Some(name.to_owned())
         }
         5 => {
@@ -964,6 +1033,7 @@ fn generate(rng: &mut Rng, fs: bool, allow_finding_classes: bool) -> Generated {
                 }
             }
             tree.push(("dist/keep.txt".to_owned(), Ent::File(b"keep".to_vec())));
+            preseed_output_directory(rng, &mut tree, &lua_keys, &input_norm, "dist");
             Some("dist".to_owned())
         }
         8 => { shape.push_str(" out=new"); Some("out2".to_owned()) }
@@ -992,6 +1062,66 @@ fn generate(rng: &mut Rng, fs: bool, allow_finding_classes: bool) -> Generated {
     blocked.retain(|k| clean.iter().any(|(p, _)| p == k));
     let case = Case { fs, tree: clean, input, output, fail_fast, config, chdir: None };
     Generated { case, faults, blocked, shape }
+}
+
+/// fail-fast × one failure of a given kind among `n` files (read: invalid UTF-8 source, parse:
+/// syntax error, transform: rule error of the bundler, write: a directory sits at the destination);
+/// the position of the faulty file in the visiting order is not controllable (HashMap / read_dir)
+/// so names and the faulty index are drawn at random and the position is measured afterwards
+fn generate_fail_fast(rng: &mut Rng, fs: bool, kind: &str) -> Generated {
+    let n = 3 + rng.below(3);
+    let mut names: Vec<&str> = LUA_NAMES.to_vec();
+    rng.shuffle(&mut names);
+    names.truncate(n);
+    let bad_index = rng.below(n);
+    let mut tree: Vec<(String, Ent)> = Vec::new();
+    let mut faults = BTreeMap::new();
+    let nested = rng.chance(1, 3);
+    for (i, name) in names.iter().enumerate() {
+        let key = if nested && i % 2 == 1 { format!("src/sub/{}", name) } else { format!("src/{}", name) };
+        let (content, fault): (Vec<u8>, Fault) = if i == bad_index {
+            match kind {
+                "read" => (fault_content(Fault::BadUtf8, rng), Fault::BadUtf8),
+                "parse" => (fault_content(Fault::Syntax, rng), Fault::Syntax),
+                "transform" => (fault_content(Fault::MissingRequire, rng), Fault::MissingRequire),
+                _ => (format!("return {}\n", i).into_bytes(), Fault::Healthy),
+            }
+        } else {
+            (format!("local v = {}\nreturn v\n", i).into_bytes(), Fault::Healthy)
+        };
+        if kind == "write" && i == bad_index {
+            let rel = key.strip_prefix("src/").unwrap();
+            if rng.chance(1, 2) || !rel.contains('/') {
+                tree.push((format!("dist/{}/in-the-way.txt", rel), Ent::File(b"x".to_vec())));
+            } else {
+                tree.push(("dist/sub".to_owned(), Ent::File(b"a file where a directory is needed".to_vec())));
+            }
+        }
+        tree.push((key.clone(), Ent::File(content)));
+        faults.insert(key, fault);
+    }
+    tree.push(("src/notes.txt".to_owned(), Ent::File(b"not lua {".to_vec())));
+    tree.push(("outside.lua".to_owned(), Ent::File(b"return 'outside'".to_vec())));
+    let (output, config) = match kind {
+        "write" => { tree.push(("dist/keep.txt".to_owned(), Ent::File(b"keep".to_vec()))); (Some("dist".to_owned()), rng.below(2)) }
+        "transform" => (Some("out".to_owned()), if rng.chance(1, 2) { 3 } else { 5 }),
+        _ => (if rng.chance(1, 5) { None } else { Some("out".to_owned()) }, rng.below(2)),
+    };
+    // a file below a file cannot exist on a real tree: keep the first of two conflicting entries
+    let mut clean: Vec<(String, Ent)> = Vec::new();
+    for (p, e) in tree {
+        let conflict = clean.iter().any(|(q, qe)| {
+            *q == p
+                || (matches!(qe, Ent::File(_)) && p.starts_with(&format!("{}/", q)))
+                || (matches!(e, Ent::File(_)) && q.starts_with(&format!("{}/", p)))
+        });
+        if !conflict {
+            clean.push((p, e));
+        }
+    }
+    faults.retain(|k, _| clean.iter().any(|(p, _)| p == k));
+    let case = Case { fs, tree: clean, input: "src".to_owned(), output, fail_fast: true, config, chdir: None };
+    Generated { case, faults, blocked: BTreeSet::new(), shape: format!("fail-fast face: {}", kind) }
 }
 
 /// a file-system case run from inside the tree with relative paths (`darklua process . ../out`):
@@ -1175,6 +1305,19 @@ fn oracle(case: &Case, gen_faults: &BTreeMap<String, Fault>, real: &RunResult, s
     }
     if !case.fail_fast && real.errors.len() != bad.len() {
         broken.push(("error-count".into(), format!("{} error(s) for {} faulty file(s): {:?}", real.errors.len(), bad.len(), real.errors)));
+    }
+    if case.fail_fast {
+        // whatever fail-fast reports must be about a file that really is faulty
+        for (kind, p) in errors.iter() {
+            let about_bad = bad.iter().any(|(src, dest)| {
+                let want_src = if case.fs { format!("<B>/{}", src) } else { (*src).clone() };
+                let want_dest = if case.fs { format!("<B>/{}", dest) } else { (*dest).clone() };
+                *p == want_src || *p == want_dest || (blocked.contains(src.as_str()) && want_dest.starts_with(&format!("{}/", p)))
+            });
+            if !about_bad {
+                broken.push(("fail-fast-wrong-file".into(), format!("fail-fast reported ({}, {}) which is not one of the faulty files {:?}", kind, p, bad.iter().map(|(s, _)| s).collect::<Vec<_>>())));
+            }
+        }
     }
     if case.fail_fast && errors.len() > 1 {
         broken.push(("fail-fast-many".into(), format!("fail-fast reported {} errors", errors.len())));
@@ -1394,6 +1537,37 @@ fn run_case(model: &mut Model, g: &Generated, rng: &mut Rng, listed: &BTreeSet<S
     // ---- oracle
     let mut broken = oracle(case, &g.faults, &real, &second);
     broken.extend(oracle_isolation(case, &g.faults, &real));
+    if case.fail_fast && real.process_error.is_none() && !real.panicked {
+        // what a fail-fast run did write must be what the ordinary run writes, and it must have
+        // stopped: the position of the stopping file is read off the number of outputs written
+        let mut plain = case.clone();
+        plain.fail_fast = false;
+        let ordinary = run_real(&plain, &order1);
+        let exp = expectation(case);
+        let initial = initial_snapshot(case);
+        let mut written = 0usize;
+        for (src, dest) in &exp.items {
+            if real.after.get(dest) != initial.get(dest) {
+                written += 1;
+                if real.after.get(dest) != ordinary.after.get(dest) {
+                    broken.push(("fail-fast-content".into(), format!("fail-fast wrote {} for {} differently from the run without fail-fast", dest, src)));
+                }
+            }
+        }
+        if real.errors.len() == 1 && !exp.in_place && exp.items.len() >= 3 {
+            let (kind, _) = classify_error(&real.errors[0]);
+            let kind = match kind.as_str() {
+                "io" if g.faults.values().any(|f| *f == Fault::BadUtf8) => "read",
+                "io" => "write",
+                "parse" => "parse",
+                "rule" => "transform",
+                other => other,
+            }
+            .to_owned();
+            let position = if written == 0 { "first" } else if written + 1 == exp.items.len() { "last" } else { "middle" };
+            out.hists.push(("fail-fast kind×position of the stopping file".into(), format!("{} {} {}", kind, position, if case.fs { "fs" } else { "mem" })));
+        }
+    }
     // runs that read other work items' files (bundling / require resolution) in place are outside
     // the statement's per-file model (DESIGN: "for non-bundling configurations")
     let reads_others_in_place = config_reads_other_files(case.config) && expectation(case).in_place;
@@ -1693,7 +1867,7 @@ pub fn run(report: &mut Report, replay: Option<&str>) {
         return;
     }
 
-    report.rule = "random directory trees (nesting, non-Lua files, names with spaces/dots/unicode, a directory named x.lua) × input as file/dir/./dir/dir/ /dir/sub/.. /missing × output absent/new/existing dir/existing file/with extension/same as input/blocked destinations (+ the finding classes: output inside input, input inside output, input `.`) × fault subsets (syntax, invalid UTF-8, missing require under convert_require/bundle, directory or file in the way) × fail-fast × 6 configurations (two of them resolve `@dep` through nested `.luaurc` files: convert_require to roblox and bundling), on memory resources and on a real temporary directory; non-trivial = process succeeded as a whole and the work list has ≥ 2 items".to_owned();
+    report.rule = "random directory trees (nesting, non-Lua files, names with spaces/dots/unicode, a directory named x.lua) × input as file/dir/./dir/dir/ /dir/sub/.. /missing × output absent/new/existing dir/existing file/with extension/same as input/blocked destinations (+ the finding classes: output inside input, input inside output, input `.`) × fault subsets (syntax, invalid UTF-8, missing require under convert_require/bundle, directory or file in the way) × fail-fast (random, plus a directed face: one failure of each kind read/parse/transform/write among 3–5 files, position of the stopping file measured) × non-Lua siblings sharing a Lua file's stem (`a.tmp`, `a.bak`, `a.lua~`, `a.txt`, `a.lua.tmp`, a `.luau` twin) in input trees and pre-seeded beside the destinations of existing output directories × 6 configurations (two of them resolve `@dep` through nested `.luaurc` files: convert_require to roblox and bundling), on memory resources and on a real temporary directory; non-trivial = process succeeded as a whole and the work list has ≥ 2 items".to_owned();
 
     let mut model = Model::spawn();
     let listed = replay_known_findings(report, &mut model);
@@ -1770,6 +1944,42 @@ pub fn run(report: &mut Report, replay: Option<&str>) {
             for v in o.violations {
                 report.violation(v);
             }
+        }
+    }
+
+    // ---- fail-fast × failure kind × position of the stopping file
+    {
+        let mut model = Model::spawn();
+        let repeats = if thorough { 60 } else { 20 };
+        for (fs, kind) in [(true, "read"), (false, "parse"), (true, "parse"), (false, "transform"), (true, "transform"), (true, "write")] {
+            for _ in 0..repeats {
+                let g = generate_fail_fast(&mut rng, fs, kind);
+                let o = run_case(&mut model, &g, &mut rng, &listed);
+                report.case(o.nontrivial_key);
+                report.count("fail_fast_face_cases", 1);
+                for (n, b) in o.hists {
+                    report.hist(&n, &b);
+                }
+                for (n, c) in o.counters {
+                    report.count(&n, c);
+                }
+                for v in o.violations {
+                    report.violation(v);
+                }
+            }
+        }
+        let seen = report.histograms.get("fail-fast kind×position of the stopping file").cloned().unwrap_or_default();
+        let mut missing = Vec::new();
+        for kind in ["read", "parse", "transform", "write"] {
+            for position in ["first", "middle", "last"] {
+                if !seen.keys().any(|k| k.starts_with(&format!("{} {} ", kind, position))) {
+                    missing.push(format!("{} {}", kind, position));
+                }
+            }
+        }
+        report.exhaustive.insert("fail-fast: failure kind (read, parse, transform, write) × position of the stopping file (first, middle, last) all observed".into(), missing.is_empty());
+        if !missing.is_empty() {
+            report.notes.push(format!("fail-fast cells not observed in this run (the visiting order is not controllable): {:?}", missing));
         }
     }
 
